@@ -2,7 +2,7 @@
 from __future__ import annotations
 
 from vt import util
-from vt.gen import jast, tplgen
+from vt.gen import c05_mixlists, jast
 from vt.model import interp as M
 
 PID = "C05"
@@ -10,10 +10,13 @@ LEVEL = "exploration"
 TECHNIQUE = "reference-model monitor: random include/import template sets rendered by the engine and by a model of context propagation and module export"
 RULE = ("random template sets: a main template with include / import / from-import sites (with, "
         "without and default context; ignore missing; name lists; Template objects; aliases; nested "
-        "imports/includes) placed at top level, in loops, with-blocks and macros; helpers print every "
+        "imports/includes; name lists MIXING existing names, missing names and Template objects in "
+        "every order - object first / after missing names only / after an existing name - as list "
+        "literals and as lists passed through the context) placed at top level, in loops, with-blocks and macros; helpers print every "
         "probe variable they can see and modules export public/private/conditional/loop/block-set "
         "names; engine (sync+async, DictLoader) compared with vt.model.interp and with dir() of the "
-        "module; distinct = distinct sets of exercised features x site kinds")
+        "module; the same mixed lists given to Environment.select_template / get_or_select_template "
+        "must return the first entry that exists (in order; an object returned unchanged); distinct = distinct sets of exercised features x site kinds")
 LEVEL_TEXT = "held on the generated template sets only"
 ASSUMPTIONS = ["`loop` is not referenced from included templates", "globals are plain values"]
 NSHARDS = {"quick": 16, "thorough": 16}
@@ -25,14 +28,20 @@ FLOORS = {
                            "f_ignore_missing": 100, "f_include_list": 100, "f_include_object": 50,
                            "f_in_loop": 100, "f_in_macro": 100, "f_in_with": 100,
                            "f_in_block": 50, "f_in_block_after_set": 30,
-                           "template_globals_order_compares": 400}},
+                           "template_globals_order_compares": 400,
+                           "f_include_list_with_object": 130, "f_list_object_after_existing_name": 80,
+                           "f_include_list_from_context": 50, "select_api_checks": 1500,
+                           "select_api_object_after_existing_name": 700}},
     "thorough": {"evaluations": 50000, "distinct": 150,
                  "counters": {"compares": 50000, "module_export_checks": 10000,
                               "f_include_without_context": 2000, "f_import_with_context": 2000,
                               "f_ignore_missing": 2000, "f_include_list": 2000,
                               "f_include_object": 1000, "f_in_loop": 2000, "f_in_macro": 2000,
                               "f_in_with": 2000, "f_in_block": 1000, "f_in_block_after_set": 600,
-                              "template_globals_order_compares": 8000}},
+                              "template_globals_order_compares": 8000,
+                              "f_include_list_with_object": 2600, "f_list_object_after_existing_name": 1600,
+                              "f_include_list_from_context": 1000, "select_api_checks": 30000,
+                              "select_api_object_after_existing_name": 14000}},
 }
 
 
@@ -45,14 +54,16 @@ def build_env(templates, glob, is_async):
     return env, srcs
 
 
+def conv_value(v, env=None):
+    if isinstance(v, dict) and "$tpl" in v:
+        return env.get_template(v["$tpl"]) if env is not None else M.TplRef(v["$tpl"])
+    if isinstance(v, list):
+        return [conv_value(x, env) for x in v]
+    return v
+
+
 def conv_data(data, env=None):
-    out = {}
-    for k, v in data.items():
-        if isinstance(v, dict) and "$tpl" in v:
-            out[k] = env.get_template(v["$tpl"]) if env is not None else M.TplRef(v["$tpl"])
-        else:
-            out[k] = v
-    return out
+    return {k: conv_value(v, env) for k, v in data.items()}
 
 
 def public_names(body):
@@ -98,7 +109,12 @@ def check(ctx, templates, data, glob):
             kinds = set()
             def fn(st):
                 if st[0] == "include":
-                    kinds.add("include" + {None: "", True: "+ctx", False: "-ctx"}[st[2]] + ("?miss" if st[3] else ""))
+                    tgt = ""
+                    if st[1][0] == "list" and any(x[0] == "name" for x in st[1][1]):
+                        tgt = "[names+objects]"
+                    elif st[1][0] == "name" and isinstance(data.get(st[1][1]), list):
+                        tgt = "[list from context]"
+                    kinds.add("include" + tgt + {None: "", True: "+ctx", False: "-ctx"}[st[2]] + ("?miss" if st[3] else ""))
                 if st[0] in ("import", "from"):
                     kinds.add(st[0] + {None: "", True: "+ctx", False: "-ctx"}[st[3]])
             jast.walk_stmts(templates["main"], fn)
@@ -154,16 +170,53 @@ def check_globals_order(ctx, templates, data, glob):
             return
 
 
+def check_select_api(ctx, templates, api, glob):
+    """Environment.select_template / get_or_select_template on lists of names and Template
+    objects: the names are tried in order and the first entry that exists is the result (a
+    Template object exists by itself and is returned unchanged); TemplatesNotFound if none."""
+    import jinja2
+
+    env, srcs = build_env(templates, glob, False)
+    for ents in api:
+        sh = c05_mixlists.shape(ents, set(templates))
+        for meth in ("select_template", "get_or_select_template"):
+            args = conv_value(ents, env)
+            exp = next((a for e, a in zip(ents, args) if c05_mixlists.is_obj(e) or e in templates), None)
+            o = util.capture(lambda: getattr(env, meth)(list(args)))
+            ctx.ev()
+            ctx.count("select_api_checks")
+            for x in sh:
+                ctx.count("select_api_" + x)
+            if exp is None:
+                ok = (not o.ok) and isinstance(o.exc, jinja2.TemplatesNotFound)
+                want = "TemplatesNotFound"
+            elif isinstance(exp, str):
+                ok = o.ok and isinstance(o.value, jinja2.Template) and o.value.name == exp
+                want = f"the template named {exp!r}"
+            else:
+                ok = o.ok and o.value is exp
+                want = f"the Template object {exp.name!r} itself"
+            if not ok:
+                got = (f"template {getattr(o.value, 'name', o.value)!r}" if o.ok
+                       else f"{type(o.exc).__name__}: {o.exc}")
+                ctx.violation(f"select_api:{meth}:" + "+".join(sh),
+                              f"env.{meth}({ents}) gave {got}, expected {want} (first entry that exists) | "
+                              f"loader has {sorted(templates)}",
+                              {"templates": templates, "api": [ents], "glob": glob, "select": True})
+                return
+
+
 def run(ctx):
     rng = ctx.rng("s")
     n = 2500 if ctx.tier == "quick" else 60000
     i = 0
     while ctx.more(i, n, floor=100):
-        g = tplgen.IGen(rng)
+        g = c05_mixlists.IGenMix(rng)
         templates, data, glob = g.tset()
         for f in g.info:
             ctx.count("f_" + f)
         check(ctx, templates, data, glob)
+        check_select_api(ctx, templates, g.api, glob)
         if i % 2 == 0:
             check_globals_order(ctx, templates, data, glob)
         ctx.dist(sorted(g.info))
@@ -173,6 +226,8 @@ def run(ctx):
 
 
 def replay(ctx, case):
+    if case.get("select"):
+        return check_select_api(ctx, case["templates"], case["api"], case["glob"])
     if case.get("order"):
         return check_globals_order(ctx, case["templates"], case["data"], case["glob"])
     check(ctx, case["templates"], case["data"], case["glob"])
